@@ -588,8 +588,13 @@ impl<'a> Gen<'a> {
     }
 
     fn for_loop(&mut self, depth: u32) -> Vec<Stmt> {
-        let kind = self.tape.pick(4);
+        let kind = self.tape.pick(5);
         let (target, iter, item_ty): (Target, Expr, Vec<(String, Ty)>) = match kind {
+            4 => {
+                // a string is iterated character by character
+                let x = self.fresh("x");
+                (Target::Name(x.clone()), self.expr(Ty::Str, 1), vec![(x, Ty::Str)])
+            }
             0 | 1 => {
                 let x = self.fresh("x");
                 (Target::Name(x.clone()), self.expr(Ty::ListInt, 2), vec![(x, Ty::Int)])
